@@ -36,7 +36,7 @@ CLAIMED = {
         "DESIGN.md 2/C05"),
     "C13": (
         "Every civil year 1..9999: 2 half-years, 4 seasons, 12 months, nesting both ways; every one of the 119,988 months lists exactly the odometer's dates of that month, each listed date's day-of-year equals its position in the year's lists, the lists sum to the year's day count. Every lunar year 0..9999: month list = lunation table slice; every lunation lists days 1..=len on consecutive civil days. Hour lists (LunarDay 13 slots, SixtyCycleDay 12 slots with pillars) on 4 x 400 consecutive days; sexagenary months of all Lichun-years (quick: windows) list exactly Jie day .. day before the next Jie. Listed parts point back to their container (get_solar_month, get_solar_year, get_lunar_year, get_lunar_month, get_sixty_cycle_month); lunar months have 29 or 30 days and their listed days convert back to themselves; the month of sexagenary year 0 and the hour lists of the first and last weeks of the range; each hour slot points back to its day's pillar and equals the value built afresh at its instant.",
-        "Oracles: odometer, lunation table (model order), the library's own Jie days. Sexagenary months are also listed after navigating to them (next(+1), next(-1), next(12) from every enumerated month: count, first and last day against the same model).",
+        "Oracles: odometer, lunation table (model order), the library's own Jie days. In every lunation, listed days whose civil date was already resolved are stepped inside the month and must list the slots of the day they then denote. Sexagenary months are also listed after navigating to them (next(+1), next(-1), next(12) from every enumerated month: count, first and last day against the same model).",
         "exhaustive enumeration of all containers with list-equals-model oracles",
         "DESIGN.md 2/C13"),
     "C14": (
